@@ -104,3 +104,26 @@ class Cover(object):
                         continue
                     unreached.append('%s: %s' % (label, src[:110]))
         return n_exec, n_hit, unreached
+
+
+def functional_cover(members):
+    """Branch-reach audit over the functional library: the named members (e.g. 'convex_conj', 'gradient', '_call') of every
+    class in odl.solvers.functional.{default_functionals, functional}."""
+    import inspect
+    from odl.solvers.functional import default_functionals as DF, functional as FN
+    cov = Cover()
+    for mod in (DF, FN):
+        for cname, c in vars(mod).items():
+            if inspect.isclass(c) and c.__module__ == mod.__name__:
+                for m in members:
+                    if m in vars(c):
+                        cov.add(vars(c)[m], '%s.%s' % (cname, m))
+    return cov
+
+
+def report_to(ctx, cov):
+    cov.disarm()
+    n_exec, n_hit, unreached = cov.report()
+    ctx.note('line_coverage', {'executable': n_exec, 'hit': n_hit})
+    for u in unreached:
+        ctx.note_set('unreached_lines', u)
